@@ -228,9 +228,12 @@ func (c *ctl) sink(ev *sp.VerifEvent) {
 					"%s of message m%d started after stream %d had been removed from the pool and still writes to it", cs.op, id, ev.StreamId))
 			}
 		}
-		c.w.mu.Unlock()
-		if !c.free {
-			g.g.enter()
+		// the arrival and its registration at the gate become visible together
+		if c.free {
+			c.w.cond.Broadcast()
+			c.w.mu.Unlock()
+		} else {
+			g.g.waitLocked(g.g.arriveLocked())
 		}
 	case "write":
 		id := msgId(ev.Msg)
@@ -260,9 +263,11 @@ func (c *ctl) sink(ev *sp.VerifEvent) {
 			c.cbGates[ev.StreamId] = g
 		}
 		c.events = append(c.events, *ev)
-		c.w.mu.Unlock()
-		if !c.free {
-			g.enter()
+		if c.free {
+			c.w.cond.Broadcast()
+			c.w.mu.Unlock()
+		} else {
+			g.waitLocked(g.arriveLocked())
 		}
 	case "addStream":
 		c.w.update(func() {
@@ -310,10 +315,11 @@ func (c *ctl) closeHook(streamId uint32, peerId string, tags []string) {
 		g = &gate{w: c.w}
 		c.hookGates[streamId] = g
 	}
-	c.w.cond.Broadcast()
-	c.w.mu.Unlock()
-	if !c.free {
-		g.enter()
+	if c.free {
+		c.w.cond.Broadcast()
+		c.w.mu.Unlock()
+	} else {
+		g.waitLocked(g.arriveLocked())
 	}
 }
 
